@@ -37,6 +37,7 @@ FUNC_MAP = {"deflate_stored": "stored::deflate_stored", "deflate_quick": "quick:
 def run(ck):
     P = prog("K1")
     ck.configs.add("K1")
+    hash_seed_position(ck, P)
     ref = zlibng_ref.load()
     R = "CONST/zlib-ng"
     n = 0
@@ -207,3 +208,30 @@ def run_thorough(ck):
         ck.note("CHECKER WARNING: frozen zlib-ng extract differs from the registry copy in %s" % d)
     else:
         ck.note("frozen zlib-ng extract re-parsed from the registry copy: identical")
+
+
+def hash_seed_position(ck, P, R="GUARD/hash-seed-position"):
+    """fill_window re-seeds the rolling hash before it inserts the `insert` positions that were waiting for more lookahead: the two
+    seed bytes are the window bytes at `strstart - insert` and the one after (zlib-ng: `str = s->strstart - s->insert`).  Seeded
+    from anywhere else the waiting positions enter the table under a wrong hash and matches that start there are not found
+    (level 9 after a dictionary or a flush) - the stream stays valid, the bytes differ from zlib-ng's."""
+    from .. import linear
+    f = P.fn(Z + "deflate::fill_window")
+    if not ck.anchor("fn deflate::fill_window", f):
+        return
+    ck.use_fn(f)
+    calls = f.live_calls(r"State::update_hash$")
+    if not ck.anchor("update_hash call in fill_window", bool(calls)):
+        return
+    for i, c in enumerate(calls):
+        args = f.call_args(c)[1:]
+        offs = []
+        for x in args:
+            idx = [n for n in mir.walk(x) if n[0] == "[]"]
+            lf = [linear.linear(f, n[2]) for n in idx]
+            good = [l for l in lf if l.get(".strstart") == 1 and l.get(".insert") == -1]
+            offs.append(good[0].get("#", 0) if good else None)
+        ok = len(offs) == 2 and None not in offs and sorted(offs) == [0, 1]
+        ck.decide(ok, R, "fill_window:update_hash#%d" % i, "seed bytes at strstart - insert and the next",
+                  "fill_window seeds the rolling hash from window positions %s instead of `strstart - insert` and `strstart - insert + 1`"
+                  % [mir.fmt(x, f)[:60] for x in args], where(f, c.line))
